@@ -591,12 +591,14 @@ def _build_native(base, revs):
                     else:
                         os.unlink(p)
             parents = [_rid(p) for p in r["parents"]]
-            if parents:
-                wt.branch.generate_revision_history(parents[0])
-                wt.set_parent_ids(parents)
             vp = [p for p in wt.all_versioned_paths() if p]
             if vp:
                 wt.unversion(vp)
+            if parents:
+                wt.branch.generate_revision_history(parents[0])
+                # only the left-hand parent while the entries are added: with the merged parents already set, dirstate
+                # refuses to add a file id that another parent has under a different path ("already added")
+                wt.set_parent_ids(parents[:1])
             paths, ids, kinds = [], [], []
             for path, fid, kind, data, ex in sorted(r["tree"], key=lambda e: e[0].split("/")):
                 full = os.path.join(base, path)
@@ -613,6 +615,8 @@ def _build_native(base, revs):
                 kinds.append(kind)
             if paths:
                 wt.add(paths, kinds, ids)
+            if len(parents) > 1:
+                wt.set_parent_ids(parents)
             wt.commit("m%d" % i, rev_id=_rid(i), timestamp=1000000000 + i, timezone=0, committer="c <c@example.com>",
                       allow_pointless=True)
     return wt.branch
@@ -657,7 +661,7 @@ def _listing(tree):
 def _drop_empty_listing(listing):
     dirs_with_content = set()
     for e in listing:
-        if str(e[1]) != "directory":
+        if str(e[1]) != "directory" and ".git" not in e[0].split("/"):
             parts = e[0].split("/")
             for k in range(1, len(parts)):
                 dirs_with_content.add("/".join(parts[:k]))
@@ -690,7 +694,10 @@ def _impl_native(inp):
     base = os.path.join(_dir(), "n%d" % _state["n"])
     os.mkdir(base)
     try:
-        br = _build_native(os.path.join(base, "w"), inp["revs"])
+        try:
+            br = _build_native(os.path.join(base, "w"), inp["revs"])
+        except Exception as e:      # the generator's business, never a finding about the export
+            raise RuntimeError("cannot materialise the history: %s: %s" % (type(e).__name__, str(e)[:120]))
         repo = br.repository
         store = BazaarObjectStore(repo)
         per_rev = []
